@@ -9,7 +9,7 @@
 From Coq Require Import List String Ascii.
 From PC Require Import Base.Codes Comp.Syntax Comp.Compile Comp.Denote Comp.EmitProofs Comp.DummyProofs
   Design.Designer Design.Results Design.ResultsProofs Design.CrossProofs Design.EndToEnd Finish.Apply
-  Base.Sexp Comp.WfPil Comp.NameProofs Sys.System Sys.SysWfPil Sys.SysDesign Design.EndToEndNames.
+  Base.Sexp Comp.WfPil Comp.NameProofs Sys.System Sys.SysWfPil Sys.SysNames Sys.SysDesign Design.EndToEndNames.
 Import ListNotations.
 
 Theorem C14_flat_ignores_dummy : forall c l1 x l2, base_len (c_bases c) (fst x) = 0 ->
@@ -102,3 +102,15 @@ Theorem C14_system_finisher_accepts : forall fs includes ctr basename args lines
            (NoDup (map fst recs) -> exists f, apply_obj 12 (table_of recs) o = OK f)).
 Proof. exact compiled_system_end_to_end. Qed.
 Print Assumptions C14_system_finisher_accepts.
+
+Theorem C14_system_finisher_accepts_unconditional : forall fs includes ctr basename args lines ctr',
+  compile_top fs includes ctr basename args [] = OK (lines, ctr') ->
+  (forall o, load_file fs includes 12 ctr basename args "" "." = OK (o, ctr') -> names_ok2 12 o) ->
+  (forall n k len, In (PSeq n k len) lines -> valid_template k = true) ->
+  exists o p lay g, load_file fs includes 12 ctr basename args "" "." = OK (o, ctr') /\ load_spec lines pspec0 = OK p /\ seed p false = OK (lay, g) /\
+    (get_constraints p false = DOver \/
+     exists e w s, get_constraints p false = DOk e w s /\
+       forall nts, fits nts e w ->
+         exists a recs, process_results p lay nts = OK a /\ output_records p a = OK recs /\ exists f, apply_obj 12 (table_of recs) o = OK f).
+Proof. exact compiled_system_end_to_end_names. Qed.
+Print Assumptions C14_system_finisher_accepts_unconditional.
